@@ -1,6 +1,7 @@
 import PP.Driver.Codec
 import PP.Driver.Monitors
 import PP.Hand.Arbitrary
+import PP.Model.Serial
 /-!
 # `ppdrv`: the model side of the correspondence check
 
@@ -161,27 +162,27 @@ def goIntegral {T I : Type} [Codec T FX] [HasIntegral T (Knot FX) I] [Nums I FX]
 
 def goTranslate {T : Type} [Codec T FX] [Translate T FX] [Nums T FX] (a : Args) : String :=
   match (arg a "p").bind fxList? |>.bind (Codec.dec (T := T)), (arg a "v").bind fx? with
-  | some p, some v => verdict a (.nums (Nums.nums (Translate.translate p v)))
+  | some p, some v => verdict a (.nums (Nums.nums (Translate.translate p v))) (Mon.ops "translate" (arg a "T") ((arg a "p").bind fxList? |>.getD []) [] ((arg a "v").bind fx?))
   | _, _ => "bad args"
 
 def goMul {T O : Type} [Codec T FX] [PMul T FX O] [Nums O FX] (a : Args) : String :=
   match (arg a "p").bind fxList? |>.bind (Codec.dec (T := T)), (arg a "s").bind fx? with
-  | some p, some s => verdict a (.nums (Nums.nums (PMul.mul p s : O)))
+  | some p, some s => verdict a (.nums (Nums.nums (PMul.mul p s : O))) (Mon.ops "mul" (arg a "T") ((arg a "p").bind fxList? |>.getD []) [] ((arg a "s").bind fx?))
   | _, _ => "bad args"
 
 def goMulAssign {T : Type} [Codec T FX] [PMulAssign T FX] [Nums T FX] (a : Args) : String :=
   match (arg a "p").bind fxList? |>.bind (Codec.dec (T := T)), (arg a "s").bind fx? with
-  | some p, some s => verdict a (.nums (Nums.nums (PMulAssign.mulAssign p s)))
+  | some p, some s => verdict a (.nums (Nums.nums (PMulAssign.mulAssign p s))) (Mon.ops "mulassign" (arg a "T") ((arg a "p").bind fxList? |>.getD []) [] ((arg a "s").bind fx?))
   | _, _ => "bad args"
 
 def goNeg {T O : Type} [Codec T FX] [PNeg T O] [Nums O FX] (a : Args) : String :=
   match (arg a "p").bind fxList? |>.bind (Codec.dec (T := T)) with
-  | some p => verdict a (.nums (Nums.nums (PNeg.neg p : O)))
+  | some p => verdict a (.nums (Nums.nums (PNeg.neg p : O))) (Mon.ops "neg" (arg a "T") ((arg a "p").bind fxList? |>.getD []) [] none)
   | _ => "bad args"
 
 def goAdd {T O : Type} [Codec T FX] [PAdd T T O] [Nums O FX] (a : Args) : String :=
   match (arg a "p").bind fxList? |>.bind (Codec.dec (T := T)), (arg a "q").bind fxList? |>.bind (Codec.dec (T := T)) with
-  | some p, some q => verdict a (.nums (Nums.nums (PAdd.add p q : O)))
+  | some p, some q => verdict a (.nums (Nums.nums (PAdd.add p q : O))) (Mon.ops "add" (arg a "T") ((arg a "p").bind fxList? |>.getD []) ((arg a "q").bind fxList? |>.getD []) none)
   | _, _ => "bad args"
 
 def goAbsDiff {T : Type} [Codec T FX] [AbsDiffEq T FX] (a : Args) : String :=
@@ -202,14 +203,14 @@ def goRelEq {T : Type} [Codec T FX] [RelativeEq T FX] (a : Args) : String :=
 
 /-! piecewise-level operations -/
 
-def goPwDeriv {T D : Type} [Codec T FX] [HasDerivative T D] [Nums D FX] (a : Args) : String :=
+def goPwDeriv {T D : Type} [Codec T FX] [HasDerivative T D] [Nums D FX] [Nums T FX] (a : Args) : String :=
   match (arg a "pw").bind (segs? (T := T)) with
-  | some segs => verdict a (Out.ofPw (Hand.pwDerivative (D := D) ⟨segs⟩))
+  | some segs => verdict a (Out.ofPw (Hand.pwDerivative (D := D) ⟨segs⟩)) (Mon.pwShape (segs.map fun g => (g.end, Nums.nums g.poly)))
   | _ => "bad args"
 
-def goSegDeriv {T D : Type} [Codec T FX] [HasDerivative T D] [Nums D FX] (a : Args) : String :=
+def goSegDeriv {T D : Type} [Codec T FX] [HasDerivative T D] [Nums D FX] [Nums T FX] (a : Args) : String :=
   match (arg a "pw").bind (segs? (T := T)) with
-  | some [s] => verdict a (Out.ofSegs [(HasDerivative.derivative s : Segment FX D)])
+  | some [s] => verdict a (Out.ofSegs [(HasDerivative.derivative s : Segment FX D)]) (Mon.pwShape ([s].map fun g => (g.end, Nums.nums g.poly)))
   | _ => "bad args"
 
 def goPwIntegral {T I : Type} [Codec T FX] [HasIntegral T (Knot FX) I] [Evaluate I FX] [Translate I FX] [Nums I FX] [Nums T FX]
@@ -256,37 +257,37 @@ def goSegIndef {T I : Type} [Codec T FX] [HasIntegral T (Knot FX) I] [Evaluate I
 
 def goPwMul {T : Type} [Codec T FX] [PMul T FX T] [Nums T FX] (a : Args) : String :=
   match (arg a "pw").bind (segs? (T := T)), (arg a "s").bind fx? with
-  | some segs, some s => verdict a (Out.ofPw (Hand.pwMul ⟨segs⟩ s))
+  | some segs, some s => verdict a (Out.ofPw (Hand.pwMul ⟨segs⟩ s)) (Mon.pwShape (segs.map fun g => (g.end, Nums.nums g.poly)))
   | _, _ => "bad args"
 
 def goSegMul {T : Type} [Codec T FX] [PMul T FX T] [Nums T FX] (a : Args) : String :=
   match (arg a "pw").bind (segs? (T := T)), (arg a "s").bind fx? with
-  | some [sg], some s => verdict a (Out.ofSegs [(PMul.mul sg s : Segment FX T)])
+  | some [sg], some s => verdict a (Out.ofSegs [(PMul.mul sg s : Segment FX T)]) (Mon.pwShape ([sg].map fun g => (g.end, Nums.nums g.poly)))
   | _, _ => "bad args"
 
 def goPwMulAssign {T : Type} [Codec T FX] [PMulAssign T FX] [Nums T FX] (a : Args) : String :=
   match (arg a "pw").bind (segs? (T := T)), (arg a "s").bind fx? with
-  | some segs, some s => verdict a (Out.ofPw (Hand.pwMulAssign ⟨segs⟩ s))
+  | some segs, some s => verdict a (Out.ofPw (Hand.pwMulAssign ⟨segs⟩ s)) (Mon.pwShape (segs.map fun g => (g.end, Nums.nums g.poly)))
   | _, _ => "bad args"
 
 def goSegMulAssign {T : Type} [Codec T FX] [PMulAssign T FX] [Nums T FX] (a : Args) : String :=
   match (arg a "pw").bind (segs? (T := T)), (arg a "s").bind fx? with
-  | some [sg], some s => verdict a (Out.ofSegs [PMulAssign.mulAssign sg s])
+  | some [sg], some s => verdict a (Out.ofSegs [PMulAssign.mulAssign sg s]) (Mon.pwShape ([sg].map fun g => (g.end, Nums.nums g.poly)))
   | _, _ => "bad args"
 
 def goPwNeg {T : Type} [Codec T FX] [PNeg T T] [Nums T FX] (a : Args) : String :=
   match (arg a "pw").bind (segs? (T := T)) with
-  | some segs => verdict a (Out.ofPw (Hand.pwNeg ⟨segs⟩))
+  | some segs => verdict a (Out.ofPw (Hand.pwNeg ⟨segs⟩)) (Mon.pwShape (segs.map fun g => (g.end, Nums.nums g.poly)))
   | _ => "bad args"
 
 def goPwTranslate {T : Type} [Codec T FX] [Translate T FX] [Nums T FX] (a : Args) : String :=
   match (arg a "pw").bind (segs? (T := T)), (arg a "v").bind fx? with
-  | some segs, some v => verdict a (Out.ofPw (Hand.pwTranslate ⟨segs⟩ v))
+  | some segs, some v => verdict a (Out.ofPw (Hand.pwTranslate ⟨segs⟩ v)) (Mon.pwShape (segs.map fun g => (g.end, Nums.nums g.poly)))
   | _, _ => "bad args"
 
 def goSegTranslate {T : Type} [Codec T FX] [Translate T FX] [Nums T FX] (a : Args) : String :=
   match (arg a "pw").bind (segs? (T := T)), (arg a "v").bind fx? with
-  | some [sg], some v => verdict a (Out.ofSegs [Translate.translate sg v])
+  | some [sg], some v => verdict a (Out.ofSegs [Translate.translate sg v]) (Mon.pwShape ([sg].map fun g => (g.end, Nums.nums g.poly)))
   | _, _ => "bad args"
 
 def goPwAbsDiff {T : Type} [Codec T FX] [AbsDiffEq T FX] [Nums T FX] (a : Args) : String :=
@@ -307,7 +308,7 @@ def goMerge (a : Args) : String :=
   match (arg a "f").bind (segs? (T := IntOfLogPoly4 FX)), (arg a "g").bind (segs? (T := IntOfLogPoly4 FX)), arg a "op" with
   | some f, some g, some op =>
     let r := if op == "sub" then Hand.pwSub ⟨f⟩ ⟨g⟩ else Hand.pwAdd ⟨f⟩ ⟨g⟩
-    verdict a (Out.ofOptPw r) (Mon.merge (f.map (·.end)) (g.map (·.end)))
+    verdict a (Out.ofOptPw r) (Mon.merge (f.map fun s => (s.end, Nums.nums s.poly)) (g.map fun s => (s.end, Nums.nums s.poly)) (op == "sub"))
   | _, _, _ => "bad args"
 
 def goLinear (a : Args) : String :=
@@ -357,6 +358,81 @@ def goArbitrary {T : Type} [Nums T F64] (d : Hand.Arb.PieceDec T) (a : Args) : S
     verdict a model (Mon.arbitrary (a.get "agree"))
   | none => "bad args"
 
+
+/-! serialization (C18): compare the generated codecs with what the real derives did -/
+def natList? (s : String) : Option (List Nat) :=
+  if s.isEmpty then some [] else (s.splitOn ",").mapM F64.natOfHex?
+
+def segsWith {F T : Type} [Codec T F] (num? : String → Option F) (s : String) : Option (List (Segment F T)) :=
+  if s.isEmpty then some [] else
+  (s.splitOn ";").mapM fun seg =>
+    match seg.splitOn ":" with
+    | [e, ns] => do
+      let e ← num? e
+      let ns ← if ns.isEmpty then some [] else (ns.splitOn ",").mapM num?
+      let p ← Codec.dec ns
+      pure (Segment.mk e p)
+    | _ => none
+
+def serdeVerdict (a : Args) (tree : Option String) (borsh : Option (List Nat)) : String :=
+  match tree, borsh with
+  | some t, some b =>
+    let implTree := (a.get "tree").getD ""
+    let implBorsh := (a.get "borsh").getD ""
+    let rt := (a.get "rt").getD ""
+    if rt.contains '0' then "MONFAIL a real round trip (serde_json / serde_cbor / borsh: " ++ rt ++ ") did not return identical bits"
+    else if implTree.startsWith "ERR" then "MONFAIL the derived Serialize made a call outside the modelled data-model subset: " ++ implTree
+    else if t != implTree then "DISAGREE model=" ++ t
+    else if Borsh.bytesToHex b != implBorsh then "DISAGREE model=" ++ Borsh.bytesToHex b
+    else "ok"
+  | _, _ => "bad args"
+
+def goSerde {T TN : Type} [Codec T FX] [SerTree T FX] [Codec TN Nat] [Borsh TN] (a : Args) : String :=
+  let rend (t : Tree FX) : String := Tree.render FX.toHex t
+  match a.get "kind" with
+  | some "piece" =>
+    serdeVerdict a
+      (((a.get "p").bind fxList?).bind (Codec.dec (T := T)) |>.map fun v => rend (SerTree.ser v))
+      (((a.get "p").bind natList?).bind (Codec.dec (T := TN)) |>.map fun v => Borsh.enc v)
+  | some "seg" =>
+    serdeVerdict a
+      (match (a.get "pw").bind (segsWith (T := T) fx?) with | some [s] => some (rend (SerTree.ser s)) | _ => none)
+      (match (a.get "pw").bind (segsWith (T := TN) F64.natOfHex?) with | some [s] => some (Borsh.enc s) | _ => none)
+  | some "pw" =>
+    serdeVerdict a
+      ((a.get "pw").bind (segsWith (T := T) fx?) |>.map fun l => rend (SerTree.ser (Piecewise.mk l)))
+      ((a.get "pw").bind (segsWith (T := TN) F64.natOfHex?) |>.map fun l => Borsh.enc (Piecewise.mk l))
+  | _ => "bad kind"
+
+def goSerdeKnot (a : Args) : String :=
+  serdeVerdict a
+    (((a.get "p").bind fxList?).bind (Codec.dec (T := Knot FX)) |>.map fun v => Tree.render FX.toHex (SerTree.ser v))
+    (((a.get "p").bind natList?).bind (Codec.dec (T := Knot Nat)) |>.map fun v => Borsh.enc v)
+
+macro "forSerde! " tag:term ", " a:term : term =>
+  `(match ($tag : String) with
+    | "p0" => some (goSerde (T := Poly0 FX) (TN := Poly0 Nat) $a) | "p1" => some (goSerde (T := Poly1 FX) (TN := Poly1 Nat) $a)
+    | "p2" => some (goSerde (T := Poly2 FX) (TN := Poly2 Nat) $a) | "p3" => some (goSerde (T := Poly3 FX) (TN := Poly3 Nat) $a)
+    | "p4" => some (goSerde (T := Poly4 FX) (TN := Poly4 Nat) $a) | "p5" => some (goSerde (T := Poly5 FX) (TN := Poly5 Nat) $a)
+    | "p6" => some (goSerde (T := Poly6 FX) (TN := Poly6 Nat) $a) | "p7" => some (goSerde (T := Poly7 FX) (TN := Poly7 Nat) $a)
+    | "p8" => some (goSerde (T := Poly8 FX) (TN := Poly8 Nat) $a)
+    | "l0" => some (goSerde (T := Log (Poly0 FX)) (TN := Log (Poly0 Nat)) $a) | "l1" => some (goSerde (T := Log (Poly1 FX)) (TN := Log (Poly1 Nat)) $a)
+    | "l2" => some (goSerde (T := Log (Poly2 FX)) (TN := Log (Poly2 Nat)) $a) | "l3" => some (goSerde (T := Log (Poly3 FX)) (TN := Log (Poly3 Nat)) $a)
+    | "l4" => some (goSerde (T := Log (Poly4 FX)) (TN := Log (Poly4 Nat)) $a) | "l5" => some (goSerde (T := Log (Poly5 FX)) (TN := Log (Poly5 Nat)) $a)
+    | "l6" => some (goSerde (T := Log (Poly6 FX)) (TN := Log (Poly6 Nat)) $a) | "l7" => some (goSerde (T := Log (Poly7 FX)) (TN := Log (Poly7 Nat)) $a)
+    | "l8" => some (goSerde (T := Log (Poly8 FX)) (TN := Log (Poly8 Nat)) $a)
+    | "i0" => some (goSerde (T := IntOfLog FX (Poly0 FX)) (TN := IntOfLog Nat (Poly0 Nat)) $a)
+    | "i1" => some (goSerde (T := IntOfLog FX (Poly1 FX)) (TN := IntOfLog Nat (Poly1 Nat)) $a)
+    | "i2" => some (goSerde (T := IntOfLog FX (Poly2 FX)) (TN := IntOfLog Nat (Poly2 Nat)) $a)
+    | "i3" => some (goSerde (T := IntOfLog FX (Poly3 FX)) (TN := IntOfLog Nat (Poly3 Nat)) $a)
+    | "i4" => some (goSerde (T := IntOfLog FX (Poly4 FX)) (TN := IntOfLog Nat (Poly4 Nat)) $a)
+    | "i5" => some (goSerde (T := IntOfLog FX (Poly5 FX)) (TN := IntOfLog Nat (Poly5 Nat)) $a)
+    | "i6" => some (goSerde (T := IntOfLog FX (Poly6 FX)) (TN := IntOfLog Nat (Poly6 Nat)) $a)
+    | "i7" => some (goSerde (T := IntOfLog FX (Poly7 FX)) (TN := IntOfLog Nat (Poly7 Nat)) $a)
+    | "i8" => some (goSerde (T := IntOfLog FX (Poly8 FX)) (TN := IntOfLog Nat (Poly8 Nat)) $a)
+    | "q4" => some (goSerde (T := IntOfLogPoly4 FX) (TN := IntOfLogPoly4 Nat) $a)
+    | _ => none)
+
 def handle (line : String) : String :=
   match (line.trimAscii.toString.splitOn " ").filter (· ≠ "") with
   | [] => "bad empty"
@@ -400,6 +476,7 @@ def handle (line : String) : String :=
       | "merge" => some (goMerge a)
       | "linear" => some (goLinear a)
       | "spline" => some (goSpline a)
+      | "serde" => if a.get "kind" == some "knot" then some (goSerdeKnot a) else (forSerde! tag, a)
       | "arbitrary" => (match tag with
         | "p0" => some (goArbitrary Hand.Arb.decPoly0 a) | "p1" => some (goArbitrary Hand.Arb.decPoly1 a)
         | "p2" => some (goArbitrary Hand.Arb.decPoly2 a) | "p3" => some (goArbitrary Hand.Arb.decPoly3 a)
